@@ -18,7 +18,7 @@ from __future__ import annotations
 import ast
 
 from ..consteval import ConstEval
-from ..core import AnalysisError, ap, find_calls, norm, stores, walk
+from ..core import AnalysisError, ancestors, ap, norm, walk
 
 SER = "hippolyzer/lib/base/message/udpserializer.py"
 DES = "hippolyzer/lib/base/message/udpdeserializer.py"
@@ -144,6 +144,7 @@ class ByteLoopInterp:
         self.emitted_symbols = set()
         self.ghost_undecided = False
         self.returns = []                 # (return node, buffer name, state)
+        self.raises = {}                  # id(raise node) -> (node, [env, ...]) states in which it is reached
         self.depth = 0
 
     # ---- diagnostics
@@ -329,10 +330,23 @@ class ByteLoopInterp:
         return self._with(env, lk, tr), self._with(env, lk, fa)
 
     # ---- emissions
+    def _const_bytes(self, e, env):
+        """bytes value of a literal or of a module/class-level constant (ConstEval); None otherwise."""
+        if isinstance(e, ast.Constant):
+            return bytes(e.value) if isinstance(e.value, (bytes, bytearray)) else None
+        if isinstance(e, (ast.Name, ast.Attribute)):
+            if isinstance(e, ast.Name) and (e.id in env or e.id in self.buffers or e.id == self.data):
+                return None
+            v = self.cev.ev(e)
+            if isinstance(v, (bytes, bytearray)):
+                return bytes(v)
+        return None
+
     def _items(self, node, e, env):
         """Byte items of an `extend` argument: list of ('b', itv, symbol) / ('rep', [items], count-itv)."""
-        if isinstance(e, ast.Constant) and isinstance(e.value, (bytes, bytearray)):
-            return [("b", (v, v), None) for v in e.value]
+        cb = self._const_bytes(e, env)
+        if cb is not None:
+            return [("b", (v, v), None) for v in cb]
         if isinstance(e, (ast.Tuple, ast.List)):
             return [("b", self.ev(x, env), x.id if isinstance(x, ast.Name) else None) for x in e.elts]
         if isinstance(e, ast.Call) and ap(e.func) in ("bytes", "bytearray") and len(e.args) == 1 and not e.keywords:
@@ -343,7 +357,7 @@ class ByteLoopInterp:
             return [("rep", [("b", (0, 0), None)], n)]
         if isinstance(e, ast.BinOp) and isinstance(e.op, ast.Mult):
             for seq, cnt in ((e.left, e.right), (e.right, e.left)):
-                if isinstance(seq, (ast.Tuple, ast.List)) or (isinstance(seq, ast.Constant) and isinstance(seq.value, bytes)):
+                if isinstance(seq, (ast.Tuple, ast.List)) or self._const_bytes(seq, env) is not None:
                     return [("rep", self._items(node, seq, env), self.ev(cnt, env))]
         self.bad(node, "buffer growth argument")
 
@@ -580,6 +594,8 @@ class ByteLoopInterp:
             fl.ret.append((state, st))
             return {}
         if isinstance(st, ast.Raise):
+            if self.record:
+                self.raises.setdefault(id(st), (st, []))[1].extend(state.values())
             return {}
         if isinstance(st, ast.Break):
             fl.brk = _state_join(fl.brk, state)
@@ -685,6 +701,16 @@ def r1(ctx):
         refuses = any(isinstance(x, ast.Raise) for x in walk(g))
         ctx.ob("C03.R1", f"{f.qual}: size test `{norm(g.test)}` refuses by raising", refuses, ctx.w(f, g),
                "exceeding the cap must be an error (a truncated expansion would be parsed as a different message)")
+    # every byte string has a zero-decoding, so the only legitimate refusal is the size cap - and that is a cap on
+    # what has been *decoded*: a raise must only be reachable once the output buffer is known to be non-empty
+    # (i.e. behind a test on its length), never on the strength of the input alone
+    for rn, envs in it.raises.values():
+        lows = [max([env[k][0] for k in env if k.startswith("#len:")] or [0]) for env in envs]
+        lo = min(lows) if lows else 0
+        guard = next((a.test for a in ancestors(rn) if isinstance(a, ast.If)), rn)
+        ctx.ob("C03.R1", f"{f.qual}: refusal `{norm(guard)}` depends on the decoded size", lo >= 1, ctx.w(f, rn),
+               "this raise is reachable with nothing decoded yet: inputs whose expansion is within the cap are refused "
+               "(zero-coded form can be longer than the data), so the decoder disagrees with the format")
     ctx.assume("zero_code_expand / zero_code_compress iterate a bytes-like argument (elements 0..255)")
 
 
@@ -726,22 +752,11 @@ def r2(ctx):
 
 
 def r3(ctx):
-    repo = ctx.repo
-    ctx.rule("C03.R3", "header peek expands a bounded window only (informational: never fails; window size is C01.R6)")
-    hf = repo.fn("UDPMessageDeserializer._parse_message_header")
-    cs = [c for c in find_calls(hf.node, "zero_code_expand")]
-    ctx.floor("C03.R3", "zero_code_expand calls in the header parser", len(cs), 1)
-    for c in cs:
-        arg = c.args[0] if c.args else None
-        if isinstance(arg, ast.Name):
-            vals = [s.value for s in stores(hf.node, into_defs=False) if s.path == arg.id and s.value is not None]
-            arg = vals[-1] if vals else arg
-        bounded = isinstance(arg, ast.Subscript) and isinstance(arg.slice, ast.Slice) and arg.slice.upper is not None
-        if not bounded:
-            ctx.note(f"C03.R3: header peek expands {norm(arg) if arg is not None else '?'} - not a bounded slice "
-                     f"(whole body expanded just to read the message number)")
-        ctx.ob("C03.R3", f"{hf.qual}: header peek window recorded", True, ctx.w(hf, c),
-               f"window {norm(arg) if arg is not None else '?'} ({'bounded' if bounded else 'UNBOUNDED - see NOTE'})")
+    """The zero-coded header peek must expand all the bytes the header needs: same clause as C01.R6
+    (window length >= 2*max message-number bytes + 2*extra length), re-run under a C03 rule id."""
+    from ..engine import RenamedCtx
+    from . import c01
+    c01.r6(RenamedCtx(ctx, {"C01.R6": "C03.R3"}))
 
 
 def run(ctx):
